@@ -99,9 +99,46 @@ Behaviour(f) ==
                     twinrel |-> Dec(1, -6), twinabs |-> Dec(1, -6),
                     rows |-> [i \in 1..Len(Probes) |-> Row(f, Probes[i], <<0, 360, -360>>[a])]]]]
 
-VARIABLE frame
-Init == frame \in CartFrames \cup SphFrames
-Next == UNCHANGED frame
+(***************************************************************************)
+(* Trench family: a slab (or fault) on a polyline of lattice points -- any  *)
+(* shape: sharp turns, parts parallel to an axis, S and V shapes -- with a   *)
+(* temperature that is linear in the distance from the plane, so that a     *)
+(* wrong closest point on the trench curve shows as a wrong temperature.    *)
+(* Base and moved world are compared on a dense lattice of points around    *)
+(* the trench.  Exactly collinear coordinate triples are left out (known     *)
+(* finding of C06 / C19).                                                    *)
+(***************************************************************************)
+CONSTANTS TN, TMax             \* lattice size and most coordinates of a trench
+TLattice == {<<i, j>> : i, j \in 0..(TN - 1)}
+Cr(a, b, c) == (b[1] - a[1]) * (c[2] - a[2]) - (b[2] - a[2]) * (c[1] - a[1])
+TrenchFrames == { [sph |-> FALSE, c |-> 3, s |-> 4, n |-> 5, tx |-> 1000, ty |-> -2000], [sph |-> FALSE, c |-> 0, s |-> 1, n |-> 1, tx |-> 0, ty |-> 0],
+                  [sph |-> FALSE, c |-> 5, s |-> -12, n |-> 13, tx |-> 0, ty |-> 3000] }
+TU == 200                       \* lattice unit in km
+TrenchDoc(f, pl, kind) ==
+  World(Cartesian,
+        <<Line(kind, "line", [i \in 1..Len(pl) |-> XYf(f, TU * pl[i][1], TU * pl[i][2])], XYf(f, 2000, -900), 0, 800 * Km,
+               <<Segment(300 * Km, <<120 * Km>>, <<-60 * Km>>, <<50>>)>>,
+               <<IF kind = "fault"
+                 THEN ("model" :> "linear") @@ ("min distance fault center" :> 0) @@ ("max distance fault center" :> 200 * Km) @@ ("center temperature" :> 300) @@ ("side temperature" :> 1300)
+                 ELSE ("model" :> "linear") @@ ("min distance slab top" :> -100 * Km) @@ ("max distance slab top" :> 200 * Km) @@ ("top temperature" :> 300) @@ ("bottom temperature" :> 1300)>>,
+               <<CUniform(<<1>>, "replace")>>, <<>>, <<>>)>>)
+TrenchRows(f) == LET ps == SetToSeq({-150 + 37 * i : i \in 0..(TN * 7)} \X {-150 + 41 * j : j \in 0..(TN * 6)} \X {40, 130}) IN
+                 [k \in 1..Len(ps) |-> LET p == XYf(Identity, ps[k][1], ps[k][2])  q == XYf(f, ps[k][1], ps[k][2]) IN
+                                        <<p[1], p[2], H - ps[k][3] * Km, ps[k][3] * Km, q[1], q[2], H - ps[k][3] * Km>>]
+TrenchBehaviour(pl, f, kind) ==
+  [id |-> <<"motion-trench", pl, f, kind>>, labels |-> <<"motion", "trench-shapes", kind>>,
+   steps |-> << [op |-> "create", h |-> 1, wb |-> TrenchDoc(Identity, pl, kind)], [op |-> "create", h |-> 2, wb |-> TrenchDoc(f, pl, kind)],
+                [op |-> "qtable", h |-> 1, h2 |-> 2, dim |-> 3, props |-> <<PT, PC(1), PTag>>, pos2 |-> <<4, 5, 6>>,
+                 twinrel |-> Dec(1, -6), twinabs |-> Dec(1, -3), jitter |-> Dec(1, -7), rows |-> TrenchRows(f)] >>]
+
+VARIABLES frame, pl
+Init == (frame \in CartFrames \cup SphFrames /\ pl = <<>>) \/ (frame \in TrenchFrames /\ pl \in {<<v>> : v \in TLattice})
+Next == /\ pl # <<>> /\ Len(pl) < TMax /\ UNCHANGED frame
+        /\ \E v \in TLattice : /\ v # pl[Len(pl)]
+                                /\ (Len(pl) >= 2 => Cr(pl[Len(pl) - 1], pl[Len(pl)], v) # 0)      \* no exactly collinear triple
+                                /\ pl' = Append(pl, v)
 SpecOK == InverseOK /\ UnitOK
-Emit == PrintT(<<"B", ToJson(Behaviour(frame))>>)
+Emit == IF pl = <<>> THEN PrintT(<<"B", ToJson(Behaviour(frame))>>)
+        ELSE Len(pl) < 3 \/ (PrintT(<<"B", ToJson(TrenchBehaviour(pl, frame, "subducting plate"))>>)
+                              /\ PrintT(<<"B", ToJson(TrenchBehaviour(pl, frame, "fault"))>>))
 =============================================================================
